@@ -10,7 +10,9 @@ import (
 	kit "github.com/junegunn/fzf/src/verifkit"
 )
 
-var c03TextAlpha = []rune{'a', 'b', 'A', '1', ' ', '/', '-', '_', 'á', 'Á', '가', ','}
+// one symbol per character class the code distinguishes, in both the ASCII table and the non-ASCII (unicode package) path:
+// lower a b á, upper A Á, digit 1 ٣, other letter 가, whitespace ' ' U+3000, delimiter / ,  non-word - _ —
+var c03TextAlpha = []rune{'a', 'b', 'A', '1', ' ', '/', '-', '_', 'á', 'Á', '가', ',', '\u3000', '٣', '—'}
 var c03PatAlpha = []rune{'a', 'b', 'A', '1', 'á'}
 
 type c03env struct {
